@@ -35,6 +35,7 @@ TIES = {
     "mcwalk": dict(translator="translate_mc", targets=["GenM", "TieM", "genmdriver"], audit="AuditTieM.lean", root="TieM", driver=GENMDRIVER,
                    modules=["GenM.Walk", "TieM.Properties"],
                    what="one permutation walk of ShapleyImportance._shapley_montecarlo: per-iteration resets + inner loop (harness/translate_mc.py -> lean/GenM/Walk.lean)",
+                   report_keys=["_shapley_montecarlo.walk"],
                    reg=[("C04", ["DsProofs.TieM.TIEM_walk", "DsProofs.TieM.TIEM_column", "DsProofs.TieM.TIEM_C04_marginals"]),
                         ("C16", ["DsProofs.TieM.TIEM_walk", "DsProofs.TieM.TIEM_column"]),
                         ("C06", ["DsProofs.TieM.TIEM_column"]),
@@ -60,6 +61,15 @@ TIES = {
                     modules=["GenA.Call", "TieA.Properties"],
                     what="ADD.__call__ (harness/translate_add.py -> lean/GenA/Call.lean)",
                     reg=[("C10", ["DsProofs.TieA.TIEA_call"])]),
+    "mcouter": dict(translator="translate_mc", targets=["GenM", "TieMO"], audit="AuditTieMO.lean", root="TieMO", driver=None,
+                    modules=["GenM.Walk", "TieMO.Properties"],
+                    what="the loop over iterations of ShapleyImportance._shapley_montecarlo around the walk: clock, timeout slice, break, average (template translation, harness/translate_mc.py -> lean/GenM/Walk.lean)",
+                    report_keys=["_shapley_montecarlo.outer"],
+                    reg=[("C16", ["DsProofs.TieMO.TIEMO_outer", "DsProofs.TieMO.TIEMO_C16_nonempty"])]),
+    "container": dict(translator="translate_cont", targets=["GenC", "TieC"], audit="AuditTieC.lean", root="TieC", driver=None,
+                      modules=["GenC.Container", "TieC.Properties"],
+                      what="_pad_array, Provenance.__setitem__ / insert / __delitem__ with an integer index (template translation, harness/translate_cont.py -> lean/GenC/Container.lean)",
+                      reg=[("C19", ["DsProofs.TieC.TIEC_setitem", "DsProofs.TieC.TIEC_insert", "DsProofs.TieC.TIEC_delitem"])]),
     "joint": dict(translator="translate_joint", targets=["GenJ", "TieJ"], audit="AuditTieJ.lean", root="TieJ", driver=None,
                   modules=["GenJ.Joint", "TieJ.Properties"],
                   what="JointUtility.null_score / mean_score / elementwise_score / elementwise_null_score / __call__ (harness/translate_joint.py -> lean/GenJ/Joint.lean)",
@@ -114,7 +124,7 @@ def build(targets=("Ds", "DsProofs", "dsdriver"), timeout=3000):
 
 def _closure():
     """Lean files of this project reachable from the build roots (Ds, DsProofs, Driver, Audit)"""
-    seen, todo = set(), ["Ds", "DsProofs", "Driver", "Audit", "Gen", "Tie", "GenDriver", "AuditTie", "GenB", "TieB", "GenBDriver", "AuditTieB", "GenJ", "TieJ", "AuditTieJ", "GenM", "TieM", "GenMDriver", "AuditTieM", "GenU", "TieU", "AuditTieU", "GenQ", "TieQ", "GenQDriver", "AuditTieQ", "GenV", "TieV", "AuditTieV", "GenA", "TieA", "AuditTieA"]
+    seen, todo = set(), ["Ds", "DsProofs", "Driver", "Audit", "Gen", "Tie", "GenDriver", "AuditTie", "GenB", "TieB", "GenBDriver", "AuditTieB", "GenJ", "TieJ", "AuditTieJ", "GenM", "TieM", "GenMDriver", "AuditTieM", "GenU", "TieU", "AuditTieU", "GenQ", "TieQ", "GenQDriver", "AuditTieQ", "GenV", "TieV", "AuditTieV", "GenA", "TieA", "AuditTieA", "TieMO", "AuditTieMO", "GenC", "TieC", "AuditTieC"]
     while todo:
         m = todo.pop()
         path = os.path.join(LEAN_DIR, m.replace(".", "/") + ".lean")
@@ -262,6 +272,8 @@ def tie_build(name="kernel", timeout=1800):
         except Exception as e:  # noqa
             problems.append("translator crashed: %r" % (e,))
         for fn, r in report.items():
+            if tie.get("report_keys") and fn not in tie["report_keys"]:
+                continue          # a function of the same generated file that belongs to another tie
             if isinstance(r, dict) and r.get("ok") is False:
                 problems.append("source function %s is outside the translatable subset: %s" % (fn, r.get("why")))
             if isinstance(r, dict) and r.get("uses_narrow"):
